@@ -161,3 +161,42 @@ def check(chk):
               'simple names: strip the marshal prefix, look up by class name, else an unrecognized type', 'simple lookup changed')
     ap0 = mod.func('_CassandraType.apply_parameters')
     chk.judge("len(subtypes) != cls.num_subtypes" in src(ap0) and "raise ValueError" in src(ap0), 'C28.parse', ap0, 'wrong number of subtypes is rejected', 'arity check gone')
+
+    # ---- the CQL type-string scanner (strip_frozen, cql_types_from_string): a quoted name ends at the next quote
+    chk.rule('C28.scan', 'cqltype_to_python: the quoted-identifier token cannot run across a closing quote (lazy repeat or a class without the quote)')
+    import re._parser as _rp
+    import re._constants as _rc
+    ctp = mod.func('cqltype_to_python')
+    pats = [e.elts[0].value for n in body_walk(ctp) if isinstance(n, ast.Call) and src(n.func) == 're.Scanner' and n.args
+            for e in n.args[0].elts if isinstance(e, ast.Tuple) and e.elts and isinstance(e.elts[0], ast.Constant) and isinstance(e.elts[0].value, str)]
+    if len(pats) < 4:
+        raise AnalysisError('cqltype_to_python: scanner lexicon not found')
+    quoted = 0
+    for pat in pats:
+        try:
+            items = list(_rp.parse(pat))
+        except Exception as e:
+            raise AnalysisError('cqltype_to_python: cannot parse token pattern %r: %s' % (pat, e))
+        if len(items) >= 2 and items[0][0] == _rc.LITERAL and items[-1][0] == _rc.LITERAL and items[0][1] == items[-1][1] and chr(items[0][1]) in '"\'':
+            quoted += 1
+            q = items[0][1]
+            bad = []
+            for op, av in items[1:-1]:
+                if op == _rc.MAX_REPEAT:
+                    lo, hi, sub = av
+                    # a greedy repeat is fine only over something that cannot match the quote itself
+                    for sop, sav in sub:
+                        if sop == _rc.ANY:
+                            bad.append('greedy .')
+                        elif sop == _rc.IN:
+                            neg = any(x[0] == _rc.NEGATE for x in sav)
+                            has_q = any(x[0] == _rc.LITERAL and x[1] == q for x in sav)
+                            if (neg and not has_q) or (not neg and has_q):
+                                bad.append('greedy class that matches the quote')
+                        elif sop == _rc.NOT_LITERAL and sav != q:
+                            bad.append('greedy class that matches the quote')
+            chk.judge(not bad, 'C28.scan', ctp, 'token %r ends at the first closing quote' % pat,
+                      'token pattern %r has a %s between the quotes: with two quoted names in one type string everything between the first and the last quote '
+                      'becomes one token, so frozen<> wrappers inside are kept or the string fails to parse' % (pat, ', '.join(bad)))
+    if quoted != 1:
+        raise AnalysisError('cqltype_to_python: expected one quoted-identifier token pattern, found %d' % quoted)
